@@ -152,7 +152,7 @@ class Instr:
         p = self.pause
         if p and p[0] == name and p[1] == point and not p[2].is_set():
             p[2].set()
-            if not p[3].wait(30):
+            if not p[3].wait(150):
                 self.rec(name)['sched_timeout'] = True
 
     def install(self):
@@ -278,13 +278,13 @@ def main():
 
         ta = threading.Thread(target=run_a)
         ta.start()
-        reached.wait(60)
+        reached.wait(120)
         paused = not a_done.is_set()
         tb = threading.Thread(target=lambda: results.__setitem__(b, import_and_probe(b)))
         tb.start()
-        tb.join(60)
+        tb.join(120)
         resume.set()
-        ta.join(60)
+        ta.join(120)
         res['paused'] = paused
         res['stuck'] = ta.is_alive() or tb.is_alive()
         imports = [results.get(a, {'mod': a, 'import': 'missing'}), results.get(b, {'mod': b, 'import': 'missing'})]
